@@ -597,7 +597,8 @@ impl<K: SimKey> World<K> {
                 if let Err(e) = res {
                     // after a reopen that flipped pre_create_cas_dirs a failing put also speaks for C19
                     // ("the choice made at creation is remembered and does not change behaviour")
-                    let props: &[&str] = if self.pre_create_flipped { &["C01", "C18", "C19"] } else { &["C01", "C18"] };
+                    // (and so does a failing put on a database that has, or was created with, the tree)
+                    let props: &[&str] = if self.pre_create_flipped || self.cfg.pre_create { &["C01", "C18", "C19"] } else { &["C01", "C18"] };
                     return Err(fail(props, "put-failed", i, format!("{} failed without any injected fault: {e}", op.short())));
                 }
                 self.model = next;
@@ -658,7 +659,7 @@ impl<K: SimKey> World<K> {
                 let cas2 = self.cas.as_ref().unwrap().clone();
                 let split = chunks.len() / 2;
                 let put_failed = |e: String, w: &World<K>| {
-                    let props: &[&str] = if w.pre_create_flipped { &["C01", "C18", "C19"] } else { &["C01", "C18"] };
+                    let props: &[&str] = if w.pre_create_flipped || w.cfg.pre_create { &["C01", "C18", "C19"] } else { &["C01", "C18"] };
                     fail(props, "put-failed", i, format!("{} failed without any injected fault: {e}", op.short()))
                 };
                 let mut tx = match interpose::enter(|| cas2.put(key.clone())) {
